@@ -74,7 +74,7 @@ func ruleHandleGuards(w *core.World, r *core.Report, h *ssa.Function) {
 	}
 	idOK, notAhead := false, false
 	for _, fct := range core.FactsAt(send.Instr.Block()) {
-		c, ok := core.AsCmp(fct.Cond, fct.Val)
+		c, ok := core.FactCmp(fct)
 		if !ok {
 			continue
 		}
@@ -115,7 +115,7 @@ func ruleHandleGuards(w *core.World, r *core.Report, h *ssa.Function) {
 		}
 		ahead := false
 		for _, fct := range p.Conds {
-			c, ok := core.AsCmp(fct.Cond, fct.Val)
+			c, ok := core.FactCmp(fct)
 			if ok && c.Op == token.GTR && isConstInt(0)(c.Y) {
 				if sub, ok := core.Unwrap(c.X).(*ssa.BinOp); ok && sub.Op == token.SUB && isReqGetter("GetOffset")(sub.X) {
 					ahead = true
@@ -269,45 +269,127 @@ func ruleSendData(w *core.World, r *core.Report, sd *ssa.Function) {
 	frames := 0
 	okAll := true
 	var pos token.Pos = sd.Pos()
-	var offPhi *ssa.Phi
-	// the running offset: the loop variable the CONTINUE frames' Offset is computed from
-	for _, s := range core.Sites(sd, false) {
-		if s.Method != "Send" || !s.Common().IsInvoke() {
-			continue
+	// the running offset: a loop variable, or (when a closure builds the frames) a captured local
+	type runOff struct {
+		phi  *ssa.Phi
+		cell *ssa.Alloc
+	}
+	baseOf := func(v ssa.Value) (runOff, bool) {
+		v = core.Unwrap(v)
+		if ph, ok := v.(*ssa.Phi); ok {
+			return runOff{phi: ph}, true
 		}
-		if code, ok := frameCode(s.Args()[0]); ok && code == cont {
-			if b, isB := core.Unwrap(frameField(s.Args()[0], "Offset")).(*ssa.BinOp); isB && b.Op == token.ADD {
-				if ph, isPhi := b.X.(*ssa.Phi); isPhi && offPhi == nil {
-					offPhi = ph
+		if ld, ok := v.(*ssa.UnOp); ok && ld.Op == token.MUL {
+			if c := core.Cell(ld.X); c != nil {
+				return runOff{cell: c}, true
+			}
+		}
+		return runOff{}, false
+	}
+	// the byte count of a frame: the count a Read returned, or the length of a slice that every
+	// caller of the frame-building closure cuts to such a count (buf[:n])
+	var countKey func(v ssa.Value) (string, bool)
+	countKey = func(v ssa.Value) (string, bool) {
+		v = core.Unwrap(v)
+		if isResultOf("*Read", 0)(v) {
+			return fmt.Sprintf("read@%p", v), true
+		}
+		c, ok := v.(*ssa.Call)
+		if !ok || !isBuiltin(c, "len") {
+			return "", false
+		}
+		par, ok := core.Unwrap(c.Call.Args[0]).(*ssa.Parameter)
+		if !ok || par.Parent().Parent() == nil {
+			return "", false
+		}
+		g := par.Parent()
+		k := -1
+		for i, q := range g.Params {
+			if q == par {
+				k = i
+			}
+		}
+		calls := 0
+		for _, h := range core.DeepFuncs(sd) {
+			for _, cs := range core.Sites(h, false) {
+				if cs.Callee != g || cs.Instr.Parent() != h {
+					continue
+				}
+				calls++
+				args := cs.Common().Args
+				if k >= len(args) {
+					return "", false
+				}
+				sl, isSl := core.Unwrap(args[k]).(*ssa.Slice)
+				if !isSl || sl.Low != nil || sl.High == nil || !isResultOf("*Read", 0)(core.Unwrap(sl.High)) {
+					return "", false
 				}
 			}
 		}
+		if calls == 0 {
+			return "", false
+		}
+		return fmt.Sprintf("len(param %d of %p)", k, g), true
 	}
-	for _, s := range core.Sites(sd, false) {
-		if s.Method != "Send" || !s.Common().IsInvoke() {
-			continue
-		}
-		code, ok := frameCode(s.Args()[0])
-		if !ok || code != cont {
-			continue
-		}
-		frames++
-		off := frameField(s.Args()[0], "Offset")
-		size := frameField(s.Args()[0], "Size")
-		b, isB := core.Unwrap(off).(*ssa.BinOp)
-		good := isB && b.Op == token.ADD && offPhi != nil && b.X == ssa.Value(offPhi) && size != nil && core.Unwrap(b.Y) == core.Unwrap(size) &&
-			isResultOf("*Read", 0)(core.Unwrap(size))
-		if !good {
-			okAll = false
-			pos = s.Pos()
+	var base runOff
+	haveBase := false
+	for _, g := range core.DeepFuncs(sd) {
+		for _, s := range core.Sites(g, false) {
+			if s.Instr.Parent() != g || s.Method != "Send" || !s.Common().IsInvoke() {
+				continue
+			}
+			code, ok := frameCode(s.Args()[0])
+			if !ok || code != cont {
+				continue
+			}
+			frames++
+			off := frameField(s.Args()[0], "Offset")
+			size := frameField(s.Args()[0], "Size")
+			good := false
+			if b, isB := core.Unwrap(off).(*ssa.BinOp); isB && b.Op == token.ADD && size != nil {
+				if ro, okB := baseOf(b.X); okB && (!haveBase || ro == base) {
+					base, haveBase = ro, true
+					ka, ok1 := countKey(b.Y)
+					kb, ok2 := countKey(size)
+					good = ok1 && ok2 && ka == kb
+				}
+			}
+			if !good {
+				okAll = false
+				pos = s.Pos()
+			}
 		}
 	}
-	r.Check(okAll && frames >= 2, "sendData/continue-frame-offset", pos, "every data frame must carry (running offset + n, n) with n the number of bytes just read (frames=%d)", frames)
+	// one frame-building closure called from two places counts for two frames
+	sends := frames
+	if haveBase && base.cell != nil {
+		sends = 0
+		for _, g := range core.DeepFuncs(sd) {
+			for _, s := range core.Sites(g, false) {
+				if s.Instr.Parent() == g && s.Callee != nil && s.Callee.Parent() != nil && len(core.SitesNamed(s.Callee, false, "*.Send")) > 0 {
+					sends++
+				}
+			}
+		}
+		if sends < frames {
+			sends = frames
+		}
+	}
+	r.Check(okAll && frames >= 1 && sends >= 2, "sendData/continue-frame-offset", pos, "every data frame must carry (running offset + n, n) with n the number of bytes just read (frames=%d)", frames)
 	adv := false
-	if offPhi != nil {
-		for _, e := range offPhi.Edges {
-			if b, ok := e.(*ssa.BinOp); ok && b.Op == token.ADD && b.X == ssa.Value(offPhi) && isResultOf("*Read", 0)(core.Unwrap(b.Y)) {
+	if haveBase && base.phi != nil {
+		for _, e := range base.phi.Edges {
+			if b, ok := e.(*ssa.BinOp); ok && b.Op == token.ADD && b.X == ssa.Value(base.phi) && isResultOf("*Read", 0)(core.Unwrap(b.Y)) {
 				adv = true
+			}
+		}
+	}
+	if haveBase && base.cell != nil {
+		for _, st := range core.CellStores(base.cell) {
+			if b, ok := st.Val.(*ssa.BinOp); ok && b.Op == token.ADD && isResultOf("*Read", 0)(core.Unwrap(b.Y)) {
+				if ro, okB := baseOf(b.X); okB && ro == base {
+					adv = true
+				}
 			}
 		}
 	}
@@ -470,7 +552,7 @@ func ruleFollowerWriters(w *core.World, r *core.Report) {
 			if !joins && !initial {
 				if os.Getenv("GUNYU_DEBUG") != "" {
 					for _, fct := range p.Conds {
-						if c, ok := core.AsCmp(fct.Cond, fct.Val); ok {
+						if c, ok := core.FactCmp(fct); ok {
 							fmt.Println("DEBUG cond", c.Op, p.Resolve(c.X).String(), "|", p.Resolve(c.Y).String(), isLeft(p.Resolve(c.X)), isMine(p.Resolve(c.Y)))
 						} else {
 							fmt.Println("DEBUG cond", fct.Val, fct.Cond.String())
